@@ -3,10 +3,12 @@ injected failure, and reads the backend back through new objects.  No model know
 import builtins
 import contextlib
 import copy
+import errno
 import io
 import json
 import os
 import re
+import resource
 import shutil
 import tempfile
 import warnings
@@ -42,9 +44,15 @@ class Injector:
     `fault_at`-th one raise InjectedFault (mode 'raise': before doing anything; mode 'partial': a file write puts half
     of the data first).  Exactly one failure per run; later primitives run normally (error handlers may clean up)."""
 
-    def __init__(self, root, fault_at=None, mode='raise', kill=None, reads=False, lowlevel=False, on_position=None):
+    def __init__(self, root, fault_at=None, mode='raise', kill=None, reads=False, lowlevel=False, on_position=None,
+                 natural_at=None):
         self.root = os.path.abspath(root) if root else None
         self.fault_at = fault_at
+        # natural_at: the primitive at this position (one that has to open / create a file) is NOT made to raise by the
+        # injector: the ENVIRONMENT makes it fail - the limit of open file descriptors of the process is 0 while it
+        # runs (EMFILE from the real open / mkstemp), and is restored right after it
+        self.natural_at = natural_at
+        self._rlimit = None
         self.mode = mode
         # kill: None = exception semantics (the primitive raises, the code runs on);  'count' = only count the
         # positions of the kill runs;  a flush mode (KILL_MODES) = the PROCESS STOPS before the primitive (os._exit:
@@ -68,6 +76,8 @@ class Injector:
         self.nwrites = 0
         self.count = 0
         self.trace = []
+        self.targets = []           # per position: base name of the file concerned (None when unknown)
+        self.env_errors = []        # (position, errno): an opening primitive failed on its own (not injected)
         self.writes_before = None
         self.fired = False
         self._saved = []
@@ -80,11 +90,12 @@ class Injector:
         except TypeError:
             return False
 
-    def hit(self, name, mutating=True):
+    def hit(self, name, mutating=True, target=None):
         """returns True when this primitive has to fail"""
         k = self.count
         self.count += 1
         self.trace.append(name)
+        self.targets.append(os.path.basename(os.fspath(target)) if isinstance(target, (str, bytes, os.PathLike)) else None)
         if self.on_position is not None:
             self.paused = True
             try:
@@ -95,9 +106,23 @@ class Injector:
             self.fired = True
             self.writes_before = self.nwrites       # mutating primitives completed before this one
             return True
+        if self.natural_at is not None and k == self.natural_at and not self.fired:
+            self.fired = True
+            self.writes_before = self.nwrites
+            self._rlimit = resource.getrlimit(resource.RLIMIT_NOFILE)
+            resource.setrlimit(resource.RLIMIT_NOFILE, (0, self._rlimit[1]))
+            return False                             # the primitive itself runs - and fails on its own
         if mutating:
             self.nwrites += 1
         return False
+
+    def env_error(self, e):
+        self.env_errors.append((self.count - 1, e.errno))
+
+    def disarm(self):
+        if self._rlimit is not None:
+            resource.setrlimit(resource.RLIMIT_NOFILE, self._rlimit)
+            self._rlimit = None
 
     def flush_files(self, flush_mode):
         """what reaches the disk although the process stops: per flush mode a selection of the files still open"""
@@ -174,13 +199,26 @@ class Injector:
 
         def open_(file, mode='r', *a, **kw):
             if isinstance(file, (str, bytes, os.PathLike)) and inj._mine(file) and any(ch in mode for ch in 'wax+'):
-                if inj.hit('open:' + mode):
+                if inj.hit('open:' + mode, target=file):
                     inj.fail('open')
-                return FileProxy(real_open(file, mode, *a, **kw))
+                try:
+                    return FileProxy(real_open(file, mode, *a, **kw))
+                except OSError as e:
+                    inj.env_error(e)
+                    raise
+                finally:
+                    inj.disarm()
             if inj.reads and isinstance(file, (str, bytes, os.PathLike)) and inj._mine(file):
                 if inj.hit('open:r', mutating=False):
                     inj.fail('open:r')
-            return real_open(file, mode, *a, **kw)
+            try:
+                return real_open(file, mode, *a, **kw)
+            except OSError as e:
+                if inj._rlimit is not None:
+                    inj.env_error(e)
+                raise
+            finally:
+                inj.disarm()
         self._patch(builtins, 'open', open_)
         self._FileProxy = FileProxy
 
@@ -209,6 +247,15 @@ class Injector:
                     if inj.hit('io.open'):
                         dead.add(file)
                         inj.fail('io.open')
+                    if inj._rlimit is not None:      # natural failure: zipfile retries with other modes, all fail
+                        dead.add(file)
+                        try:
+                            return real_io_open(file, mode, *a, **kw)
+                        except OSError as e:
+                            inj.env_error(e)
+                            raise
+                        finally:
+                            inj.disarm()
                     return FileProxy(real_io_open(file, mode, *a, **kw), 'lowwrite')
                 return real_io_open(file, mode, *a, **kw)
             self._patch(io, 'open', io_open)
@@ -255,7 +302,13 @@ class Injector:
             if dir is not None and (inj._mine(os.path.join(dir, 'x'))):
                 if inj.hit('tempfile.mkstemp'):
                     inj.fail('mkstemp')
-            return real_mkstemp(suffix, prefix, dir, text)
+            try:
+                return real_mkstemp(suffix, prefix, dir, text)
+            except OSError as e:
+                inj.env_error(e)
+                raise
+            finally:
+                inj.disarm()
         self._patch(tempfile, 'mkstemp', mkstemp)
 
         for nm in ('writestr', 'write'):
@@ -274,7 +327,14 @@ class Injector:
             if inj.reads and mode == 'r' and isinstance(file, (str, bytes, os.PathLike)) and inj._mine(file):
                 if inj.hit('zip.open:r', mutating=False):
                     inj.fail('zip.open:r')
-            orig_zinit(zself, file, mode, *a, **kw)
+            try:
+                orig_zinit(zself, file, mode, *a, **kw)
+            except OSError as e:
+                if inj._rlimit is not None:
+                    inj.env_error(e)
+                raise
+            finally:
+                inj.disarm()
             if mode != 'r' and zself.filename and inj._mine(zself.filename) and zself.fp is not None \
                     and not isinstance(zself.fp, FileProxy):
                 inj.open_files.append(zself.fp)
@@ -298,6 +358,7 @@ class Injector:
         return self
 
     def __exit__(self, *exc):
+        self.disarm()
         for obj, attr, old in reversed(self._saved):
             if attr.startswith('__inst__'):
                 obj.__dict__.pop(attr[len('__inst__'):], None)
@@ -308,8 +369,42 @@ class Injector:
 
 
 # ---------------------------------------------------------------------------------------------------------------------
+# identifiers: the model's number i is the string 'n<i>' unless the case gives the identifier another spelling
+# (`names`: very long identifiers, characters that matter for a file system); observations are mapped back
+_NAMES = {}
+_IDS = {}
+
+
+def set_names(names):
+    new = {int(k): v for k, v in (names or {}).items()}
+    if new == _NAMES:
+        return
+    _OBS_CACHE.clear()          # (the cached observations are in terms of the numbers)
+    _RAW_CACHE.clear()
+    _NAMES.clear()
+    _IDS.clear()
+    for k, v in (names or {}).items():
+        _NAMES[int(k)] = v
+        _IDS[v] = int(k)
+
+
 def name_of(i):
-    return 'n%d' % i
+    return _NAMES.get(i) or 'n%d' % i
+
+
+def id_of(name):
+    if name in _IDS:
+        return _IDS[name]
+    m = re.fullmatch(r'n(\d+)', name)
+    if not m or int(m.group(1)) in _NAMES:
+        raise RuntimeError('unexpected identifier: %r' % name[:80])
+    return int(m.group(1))
+
+
+OPENING_PRIMS = ('tempfile.mkstemp', 'io.open', 'zip.open:r')
+READ_PRIMS = ('open:r', 'zip.open:r', 'zip.read')
+NATURAL_ERRNOS = (errno.EMFILE, errno.ENFILE, errno.ENAMETOOLONG, errno.ENOENT, errno.ENOTDIR)
+_NATURAL = [False]      # a failure caused by the environment is expected in the run that is in progress
 
 
 _BAD = {}
@@ -372,6 +467,8 @@ def make_backend(kind, scratch):
         return CachingBackend(FilesystemBackend(os.path.join(scratch, 'store'), create_if_missing=True))
     if kind == 'zip':
         return ZipFileBackend(os.path.join(scratch, 'store.zip'))
+    if kind == 'czip':
+        return CachingBackend(ZipFileBackend(os.path.join(scratch, 'store.zip')))
     raise ValueError(kind)
 
 
@@ -385,7 +482,9 @@ def _reopen(ps):
     elif isinstance(be, CachingBackend):
         with warnings.catch_warnings():
             warnings.simplefilter('ignore')
-            be = CachingBackend(FilesystemBackend(be._backend._root))
+            inner = be._backend
+            be = CachingBackend(FilesystemBackend(inner._root) if isinstance(inner, FilesystemBackend)
+                                else ZipFileBackend(inner._root))
     return PulseStorage(be)
 
 
@@ -395,7 +494,11 @@ def apply_op(ps, op, objs, memo):
     (known finding dup-id-in-transaction / overwrite-creates-cycle); raised before anything is written."""
     try:
         if op['op'] == 'clear':
-            if op.get('how') == 'reopen':
+            if op.get('how') == 'wrapper':
+                # the caching wrapper forgets its texts as well (CachingBackend.clear_cache)
+                ps._storage_backend.clear_cache()
+                ps.clear()
+            elif op.get('how') == 'reopen':
                 # a new PulseStorage (and, for persistent backends, a new backend object) on the same content takes
                 # over: same effect on the cache as clear(); the old objects are dropped
                 ps.__dict__.update(_reopen(ps).__dict__)
@@ -412,9 +515,15 @@ def apply_op(ps, op, objs, memo):
                 ps[name_of(op['id'])]
             finally:
                 for nm in set(ps.temporary_storage) - had:
-                    m = re.fullmatch(r'n(\d+)', nm)
-                    if m:
-                        memo[str(op['base'] + int(m.group(1)))] = ps.temporary_storage[nm].serializable
+                    memo[str(op['base'] + id_of(nm))] = ps.temporary_storage[nm].serializable
+        elif op['op'] == 'store' and op.get('via_registry') and str(op['t']) not in memo:
+            # the PulseStorage is the default pulse registry: CONSTRUCTING the named object stores it
+            # (Serializable._register -> registry[identifier] = self -> PulseStorage.__setitem__)
+            for k in objs[str(op['t'])]['kids']:
+                if k != 'bad':
+                    build(objs, k, memo)
+            with ps.as_default_registry():
+                build(objs, op['t'], memo)
         else:
             t = build(objs, op['t'], memo)
             if op['op'] == 'store':
@@ -424,6 +533,10 @@ def apply_op(ps, op, objs, memo):
         return 'ok'
     except InjectedFault:
         return 'fault'
+    except OSError as e:
+        if _NATURAL[0] and e.errno in NATURAL_ERRNOS and not isinstance(e, FileExistsError):
+            return 'fault'
+        raise
     except RuntimeError as e:
         if isinstance(e, RecursionError):
             return 'recursion'
@@ -450,7 +563,7 @@ def parse_doc(text):
     def walk(x):
         if isinstance(x, dict):
             if x.get('#type') == 'reference':
-                refs.append(int(re.fullmatch(r'n(\d+)', x['#identifier']).group(1)))
+                refs.append(id_of(x['#identifier']))
                 return
             for k in x:
                 walk(x[k])
@@ -465,6 +578,25 @@ def parse_doc(text):
 
 
 def observe(kind, scratch, backend):
+    """what a reader sees.  dict: through the backend object; directory / archive: through NEW backend objects; caching
+    wrapper: both - the directory / archive through new objects and, when the wrapper object is given, the content
+    through the wrapper itself (its listing and its cached texts, new PulseStorage); the result is the first, with the
+    second attached as `view2` when it differs"""
+    res = _observe(kind, scratch, backend)
+    if kind in ('cfs', 'czip') and backend is not None:
+        saved = dict(backend._cache)        # (the observation itself must not fill the wrapper's cache)
+        try:
+            res2 = _observe('dict', scratch, backend)
+        except Exception as e:
+            res2 = {'missing': True, 'entries': [], 'error': '%s: %s' % (type(e).__name__, str(e)[:100])}
+        finally:
+            backend._cache = saved
+        if res2 != res:
+            res = dict(res, view2=res2)
+    return res
+
+
+def _observe(kind, scratch, backend):
     from qupulse.serialization import FilesystemBackend, ZipFileBackend, PulseStorage
     raw_key = None
     if kind == 'dict':
@@ -488,6 +620,9 @@ def observe(kind, scratch, backend):
             return {'missing': True, 'entries': []}
     texts = [(name, be.get(name)) for name in sorted(be)]
     key = tuple(texts)
+    listed = PulseStorage(be)
+    if sorted(listed) != [n for n, _ in texts] or len(listed) != len(texts):
+        raise RuntimeError('PulseStorage lists something else than its backend')
     if key in _OBS_CACHE:           # the result is a function of the complete content of the backend
         res = _OBS_CACHE[key]
         if raw_key is not None:
@@ -495,9 +630,7 @@ def observe(kind, scratch, backend):
         return json.loads(res)
     entries = []
     for name, text in texts:
-        m = re.fullmatch(r'n(\d+)', name)
-        if not m:
-            raise RuntimeError('unexpected identifier listed: %r' % name)
+        ident = id_of(name)
         doc = parse_doc(text)
         try:
             with vlib.time_limit(10):
@@ -507,7 +640,8 @@ def observe(kind, scratch, backend):
             raise
         except Exception:
             loads = False
-        entries.append([int(m.group(1)), doc, loads])
+        entries.append([ident, doc, loads])
+    entries.sort(key=lambda e: e[0])        # (by number: the order must not depend on the spelling)
     res = {'missing': False, 'entries': entries}
     if len(_OBS_CACHE) > 20000:
         _OBS_CACHE.clear()
@@ -530,6 +664,7 @@ def execute(case, fault_at=None, kill=None):
     _counter[0] += 1
     scratch = os.path.join(SCRATCH_ROOT, 'r%d' % _counter[0])
     os.makedirs(scratch)
+    set_names(case.get('names'))
     try:
         with warnings.catch_warnings():
             warnings.simplefilter('ignore')
@@ -541,14 +676,14 @@ def execute(case, fault_at=None, kill=None):
                 r = apply_op(ps, op, case['objs'], memo)
                 if r == 'fault':
                     raise RuntimeError('fault outside injection')
-            before = observe(kind, scratch, backend)
+            before = observe(kind, scratch, ps._storage_backend)
             inj = Injector(None if kind == 'dict' else scratch, fault_at, case.get('fault', 'raise'), kill,
                            reads=case.get('reads', False), lowlevel=case.get('lowlevel', False))
             if kind == 'dict':
                 inj.wrap_backend_methods(backend)
             with inj:
                 outcome = apply_op(ps, case['final'], case['objs'], memo)
-            after = observe(kind, scratch, backend)
+            after = observe(kind, scratch, ps._storage_backend)
             res = {'before': before, 'outcome': outcome, 'after': after, 'count': inj.count, 'trace': inj.trace,
                    'writes_before': inj.writes_before, 'fired': inj.fired}
             if case.get('post') and kill is None:
@@ -558,7 +693,7 @@ def execute(case, fault_at=None, kill=None):
                     raise
                 except Exception:
                     res['post_outcome'] = 'unusable'
-                res['post_obs'] = observe(kind, scratch, backend)
+                res['post_obs'] = observe(kind, scratch, ps._storage_backend)
             return res
     finally:
         shutil.rmtree(scratch, ignore_errors=True)
@@ -641,8 +776,9 @@ def _raw_copytree(src, dst):
 
 
 def _leftovers(kind, scratch):
-    top = scratch if kind == 'zip' else os.path.join(scratch, 'store')
-    return len([f for f in os.listdir(top) if not re.fullmatch(r'n\d+\.json|store\.zip', f)])
+    top = scratch if kind in ('zip', 'czip') else os.path.join(scratch, 'store')
+    return len([f for f in os.listdir(top) if not (re.fullmatch(r'n\d+\.json|store\.zip', f)
+                                                   or (f.endswith('.json') and f[:-5] in _IDS))])
 
 
 def _case_rng(case):
@@ -686,6 +822,7 @@ def run_case(case, kill_modes=(), real_kills=2, validate=1, cap=None):
     os.makedirs(scratch)
     kind = case['backend']
     rng = _case_rng(case)
+    set_names(case.get('names'))
     try:
         with warnings.catch_warnings():
             warnings.simplefilter('ignore')
@@ -695,7 +832,7 @@ def run_case(case, kill_modes=(), real_kills=2, validate=1, cap=None):
             for op in case['history']:
                 if apply_op(ps, op, case['objs'], memo) == 'fault':
                     raise RuntimeError('fault outside injection')
-            before = observe(kind, scratch, backend)
+            before = observe(kind, scratch, ps._storage_backend)
             state = _State(ps, backend)
             hist_memo = dict(memo)
             if kind != 'dict':
@@ -709,22 +846,31 @@ def run_case(case, kill_modes=(), real_kills=2, validate=1, cap=None):
                     shutil.rmtree(scratch, ignore_errors=True)
                     shutil.copytree(backup, scratch)
 
-            def injector(fault_at, kill=None, on_position=None):
+            def injector(fault_at, kill=None, on_position=None, natural_at=None):
                 inj = Injector(None if kind == 'dict' else scratch, fault_at, case.get('fault', 'raise'), kill,
                                reads=case.get('reads', False), lowlevel=case.get('lowlevel', False),
-                               on_position=on_position)
+                               on_position=on_position, natural_at=natural_at)
                 if kind == 'dict':
                     inj.wrap_backend_methods(backend)
                 return inj
 
-            def raise_run(fault_at):
-                inj = injector(fault_at)
+            def raise_run(fault_at, natural_at=None, names=None):
+                """fault_at: the injector makes that primitive raise.  natural_at / names: the ENVIRONMENT makes a
+                primitive fail (no file descriptor left while the primitive at that position runs / an identifier
+                spelled so that a file name derived from it is not acceptable to the file system)"""
+                inj = injector(fault_at, natural_at=natural_at)
+                _NATURAL[0] = natural_at is not None or names is not None
+                if names is not None:
+                    set_names(dict(case.get('names') or {}, **names))
                 try:
-                    with inj:
-                        outcome = apply_op(ps, case['final'], case['objs'], memo)
-                    res = {'before': before, 'outcome': outcome, 'after': observe(kind, scratch, backend),
+                    try:
+                        with inj:
+                            outcome = apply_op(ps, case['final'], case['objs'], memo)
+                    finally:
+                        _NATURAL[0] = False
+                    res = {'before': before, 'outcome': outcome, 'after': observe(kind, scratch, ps._storage_backend),
                            'count': inj.count, 'trace': inj.trace, 'writes_before': inj.writes_before,
-                           'fired': inj.fired}
+                           'fired': inj.fired, 'targets': inj.targets, 'env_errors': inj.env_errors}
                     if case.get('post'):
                         try:
                             res['post_outcome'] = apply_op(ps, case['post'], case['objs'], memo)
@@ -732,15 +878,45 @@ def run_case(case, kill_modes=(), real_kills=2, validate=1, cap=None):
                             raise
                         except Exception:      # e.g. the archive / a listed document is not readable any more
                             res['post_outcome'] = 'unusable'
-                        res['post_obs'] = observe(kind, scratch, backend)
+                        res['post_obs'] = observe(kind, scratch, ps._storage_backend)
                     return res
                 finally:
+                    _NATURAL[0] = False
+                    if names is not None:
+                        set_names(case.get('names'))
                     reset()
 
             r0 = raise_run(None)
             positions = select_positions(r0['trace'], None if case.get('all_positions') else cap, rng)
             runs = {k: raise_run(k) for k in positions}
-            out = {'r0': r0, 'runs': runs, 'kills': [], 'ktrace': [], 'validated': 0}
+            out = {'r0': r0, 'runs': runs, 'kills': [], 'ktrace': [], 'validated': 0, 'naturals': []}
+
+            # failures the environment produces (no exception raised by the harness)
+            nat = case.get('natural') or {}
+            if kind != 'dict' and nat.get('emfile'):
+                for k, prim in enumerate(r0['trace']):
+                    if prim in OPENING_PRIMS or prim.startswith('open:'):
+                        rn = raise_run(None, natural_at=k)
+                        if [e for e in rn['env_errors'] if e[0] == k and e[1] in (errno.EMFILE, errno.ENFILE)]:
+                            rn.update(k=k, how='EMFILE')
+                            out['naturals'].append(rn)
+                        else:
+                            return {'error': 'no file descriptor limit failure at position %d (%s)' % (k, prim)}
+            for spec in nat.get('names', []) if kind != 'dict' else []:
+                rn = raise_run(None, names={str(spec['id']): spec['name']})
+                errs = [e for e in rn['env_errors'] if e[1] in NATURAL_ERRNOS]
+                if bool(errs) != bool(spec['fails'] and kind in ('fs', 'cfs')):
+                    return {'error': 'identifier of %d characters: the environment %s' % (
+                        len(spec['name']), 'refused a file name' if errs else 'accepted all file names')}
+                if errs:
+                    k = errs[0][0]
+                    rn.update(k=k, how=errno.errorcode[errs[0][1]], fired=True,
+                              writes_before=sum(1 for t in rn['trace'][:k] if t not in READ_PRIMS))
+                    out['naturals'].append(rn)
+                else:
+                    for fld in ('outcome', 'after', 'trace'):
+                        if rn[fld] != r0[fld]:
+                            return {'error': 'the spelling of identifier %d changes the run (%s)' % (spec['id'], fld)}
 
             # independent repetition of some runs (separate directory, history executed again)
             choices = [None] + positions
@@ -769,7 +945,7 @@ def run_case(case, kill_modes=(), real_kills=2, validate=1, cap=None):
                 try:
                     with inj:
                         outcome = apply_op(ps, case['final'], case['objs'], memo)
-                    after = observe(kind, scratch, backend)
+                    after = observe(kind, scratch, ps._storage_backend)
                 finally:
                     reset()
                 if outcome != r0['outcome'] or after != r0['after']:
